@@ -1,7 +1,795 @@
-"""Tie B for C18 (placeholder until the property's translator is written): writes an empty
-coq/theories/Gen/GenC18.v so that the project builds."""
+"""Tie B for C18: regenerate coq/theories/Gen/GenC18.v from the CURRENT source (under $VERIF_REPO,
+default /repo) of
+
+  * every built-in context parser, completely:
+      pypyr/parser/{keyvaluepairs,keys,list,string,dict,argskwargs,json}.py :: get_parsed_context
+  * pypyr/cli.py :: main — the try/except ladder with its return codes, and the keyword
+    arguments of the call into pypyr.pipelinerunner.run.
+
+Proofs/GenC18Proofs.v proves each generated definition equal to the hand-written model
+(Model/Parsers.v, Model/Cli.v) for all inputs, so an edit to one of those functions re-checks —
+or breaks — those lemmas.
+
+Fail-closed: a statement or expression outside the subset below makes the definition come out
+under the name <gen_name>_UNTRANSLATED (reason in a comment); every lemma that mentions the
+expected name then stops compiling.
+
+Parser functions (`def get_parsed_context(args)`, args : None or a list of str):
+  dropped: docstrings, logger.* calls, annotations (trusted: effect-free)
+  x = e / x: T = e            let x1 := e in ...                    (fresh name per binding)
+  a, b, c = e                 let '(a1, b1, c1) := e in ...
+  d[k] = v                    let d2 := dict_set k v d1 in ...      (d : dict)
+  l.append(e)                 let l2 := l1 ++ [e] in ...
+  if c: A else: B ; K         if c then [A;K] else [B;K]            (continuation duplicated)
+     c = `args` / `not args` narrows args to a non-empty list in the truthy branch;
+     c = `[not] isinstance(x, Mapping)` narrows x : val to a dict
+  for x in xs: B              fold_left over the tuple of the variables B rebinds (sorted by name)
+  return e / return None      Some e / None     (Ok … when the function can raise)
+  raise TypeError("…")        Err "TypeError" "…"
+  x = json.loads(e)           let* x := prim_json_loads e in …     (Section variable)
+  expressions: names, module-level string constants, str/bool/None literals, [] {} {k: v, …},
+     s.partition('c'), 'sep'.join(l), not e, truthiness by type, dict(pairs), generator
+     expressions / list comprehensions (map, filter), dict comprehensions with tuple targets.
+  Aliasing: a list/dict that is mutated in place may not be read (stored, returned, rebound)
+  before its last in-place mutation — value semantics would be wrong there: untranslatable.
+
+main: statements before the `try` may only be assignments (argument parsing); the try body is
+abstract (its outcome = the exception it raised, if any); handlers must name classes from
+BaseException / Exception / KeyboardInterrupt / SystemExit / GeneratorExit; in a handler,
+sys.stdout.write / sys.stderr.write / traceback.print_exc and `if`s containing only those are
+dropped (what is printed is out of scope), what remains must be `return <int expr>`, `raise`
+or nothing; `signal.SIGINT` is 2.  The runner call: keyword values must be
+`parsed_args.<dest>` (dest -> model field by the table DEST), True/False/None.
+"""
+import ast
+import os
+import sys
 from pathlib import Path
+
+REPO = Path(os.environ.get('VERIF_REPO', '/repo'))
 OUT = Path(__file__).resolve().parent.parent / 'coq' / 'theories' / 'Gen' / 'GenC18.v'
-TEXT = '(* Gen/GenC18.v - placeholder *)\n'
-if not OUT.exists() or OUT.read_text() != TEXT:
-    OUT.write_text(TEXT)
+
+
+class Untranslatable(Exception):
+    pass
+
+
+def coq_str(s):
+    """Python str constant -> Coq string term (printable ASCII literal pieces, chr n for the rest)."""
+    parts, cur = [], []
+
+    def flush():
+        if cur:
+            parts.append('"' + ''.join(cur) + '"')
+            cur.clear()
+    for b in s.encode('utf-8'):
+        if b == 0x22:
+            cur.append('""')
+        elif 0x20 <= b < 0x7f:
+            cur.append(chr(b))
+        else:
+            flush()
+            parts.append(f'chr {b}')
+    flush()
+    if not parts:
+        return '""'
+    if len(parts) == 1 and parts[0].startswith('"'):
+        return parts[0]
+    return '(' + ' ++ '.join(parts) + ')'
+
+
+def coq_char(s):
+    if len(s) != 1 or not (0x20 <= ord(s) < 0x7f) or s == '"':
+        raise Untranslatable(f'separator {s!r}')
+    return f'"{s}"%char'
+
+
+def is_logging(st):
+    return (isinstance(st, ast.Expr) and isinstance(st.value, ast.Call)
+            and isinstance(st.value.func, ast.Attribute) and isinstance(st.value.func.value, ast.Name)
+            and st.value.func.value.id == 'logger')
+
+
+def is_doc(st):
+    return isinstance(st, ast.Expr) and isinstance(st.value, ast.Constant) and isinstance(st.value.value, str)
+
+
+def strip(body):
+    return [st for st in body if not is_doc(st) and not is_logging(st)]
+
+
+# ---------------------------------------------------------------- types
+STR, BOOL, VAL, DICT = 'string', 'bool', 'val', 'dict'
+LSTR = ('list', STR)
+OARGS = ('option', LSTR)
+UNKNOWN = '?'
+
+
+def ty_str(t):
+    if isinstance(t, str):
+        return t
+    if t[0] == 'tuple':
+        return '(' + ' * '.join(ty_str(x) for x in t[1]) + ')'
+    return f'({t[0]} {ty_str(t[1])})'
+
+
+def to_val(term, ty):
+    if ty == VAL:
+        return term
+    if ty == STR:
+        return f'(VStr {term})'
+    if ty == BOOL:
+        return f'(VBool {term})'
+    if ty == DICT:
+        return f'(VDict {term})'
+    if isinstance(ty, tuple) and ty[0] == 'list':
+        if ty[1] == UNKNOWN:
+            if term != '[]':
+                raise Untranslatable('list of unknown element type')
+            return '(VList [])'
+        if ty[1] == VAL:
+            return f'(VList {term})'
+        if ty[1] == STR:
+            return f'(VList (map VStr {term}))'
+        return f'(VList (map (fun x_ => {to_val("x_", ty[1])}) {term}))'
+    raise Untranslatable(f'no value injection for {ty_str(ty)}')
+
+
+# ---------------------------------------------------------------- aliasing pre-pass
+
+def check_aliasing(fn, params):
+    """Reject reads of an in-place-mutated name before its last in-place mutation."""
+    muts, loads = [], []
+    counter = [0]
+
+    def mutation_target(st):
+        """-> (name, receiver Name node) for `x[k] = v` / `x.append(e)` statements"""
+        if isinstance(st, ast.Assign) and len(st.targets) == 1 and isinstance(st.targets[0], ast.Subscript) \
+                and isinstance(st.targets[0].value, ast.Name):
+            return st.targets[0].value.id, st.targets[0].value
+        if isinstance(st, ast.Expr) and isinstance(st.value, ast.Call) and isinstance(st.value.func, ast.Attribute) \
+                and st.value.func.attr in ('append', 'extend', 'update', 'insert', 'pop', 'clear', 'setdefault',
+                                           'remove', 'sort', 'reverse') \
+                and isinstance(st.value.func.value, ast.Name):
+            return st.value.func.value.id, st.value.func.value
+        return None
+
+    def walk(stmts, loops):
+        for st in stmts:
+            counter[0] += 1
+            no = counter[0]
+            recv = None
+            mt = mutation_target(st)
+            if mt:
+                muts.append((mt[0], no, loops))
+                recv = mt[1]
+            if isinstance(st, (ast.For, ast.While)):
+                for n in ast.walk(st.iter if isinstance(st, ast.For) else st.test):
+                    if isinstance(n, ast.Name) and isinstance(n.ctx, ast.Load):
+                        loads.append((n.id, no, loops))
+                walk(st.body, loops + (no,))
+                walk(st.orelse, loops + (no,))
+            elif isinstance(st, ast.If):
+                for n in ast.walk(st.test):
+                    if isinstance(n, ast.Name) and isinstance(n.ctx, ast.Load):
+                        loads.append((n.id, no, loops))
+                walk(st.body, loops)
+                walk(st.orelse, loops)
+            elif isinstance(st, (ast.Try, ast.With)):
+                raise Untranslatable(type(st).__name__)
+            else:
+                for n in ast.walk(st):
+                    if isinstance(n, ast.Name) and isinstance(n.ctx, ast.Load) and n is not recv:
+                        loads.append((n.id, no, loops))
+    walk(fn.body, ())
+    mutated = {m[0] for m in muts}
+    if mutated & set(params):
+        raise Untranslatable('a parameter is mutated in place')
+    for name, no, loops in loads:
+        for mname, mno, mloops in muts:
+            if mname != name:
+                continue
+            if mno >= no or (set(loops) & set(mloops)):
+                raise Untranslatable(f'{name} is read before its last in-place mutation (aliasing)')
+
+
+# ---------------------------------------------------------------- parser functions
+
+class FnTr:
+    def __init__(self, consts, can_raise):
+        self.consts = consts            # module-level NAME = 'str'
+        self.can_raise = can_raise
+        self.n = 0
+
+    def fresh(self, base):
+        self.n += 1
+        return f'{base}{self.n}'
+
+    # ------------------------------------------------------------ expressions
+    def expr(self, e, env, want=None):
+        """-> (coq term, type)"""
+        if isinstance(e, ast.Name):
+            if e.id in env:
+                return env[e.id]
+            if e.id in self.consts:
+                return coq_str(self.consts[e.id]), STR
+            raise Untranslatable(f'unknown name {e.id}')
+        if isinstance(e, ast.Constant):
+            v = e.value
+            if isinstance(v, bool):
+                return ('true' if v else 'false'), BOOL
+            if isinstance(v, str):
+                return coq_str(v), STR
+            raise Untranslatable(f'constant {v!r}')
+        if isinstance(e, ast.List):
+            if not e.elts:
+                return '[]', ('list', UNKNOWN)
+            items = [self.expr(x, env) for x in e.elts]
+            tys = {ty_str(t) for _, t in items}
+            if len(tys) != 1:
+                items = [(to_val(t, ty), VAL) for t, ty in items]
+            return '[' + '; '.join(t for t, _ in items) + ']', ('list', items[0][1])
+        if isinstance(e, ast.Tuple):
+            items = [self.expr(x, env) for x in e.elts]
+            return '(' + ', '.join(t for t, _ in items) + ')', ('tuple', tuple(ty for _, ty in items))
+        if isinstance(e, ast.Dict):
+            if any(k is None for k in e.keys):
+                raise Untranslatable('dict unpacking')
+            if not e.keys:
+                return '[]', DICT
+            pairs = []
+            for k, v in zip(e.keys, e.values):
+                kt, kty = self.expr(k, env)
+                vt, vty = self.expr(v, env)
+                pairs.append(f'({to_val(kt, kty)}, {to_val(vt, vty)})')
+            return f'(dict_update [] [{"; ".join(pairs)}])', DICT
+        if isinstance(e, ast.UnaryOp) and isinstance(e.op, ast.Not):
+            return f'(negb {self.truth(e.operand, env)})', BOOL
+        if isinstance(e, ast.BoolOp):
+            ts = [self.truth(v, env) for v in e.values]
+            op = 'andb' if isinstance(e.op, ast.And) else 'orb'
+            acc = ts[-1]
+            for t in reversed(ts[:-1]):
+                acc = f'({op} {t} {acc})'
+            return acc, BOOL
+        if isinstance(e, (ast.GeneratorExp, ast.ListComp)):
+            return self.comprehension(e.elt, e.generators, env, lambda sub: self.expr(e.elt, sub))
+        if isinstance(e, ast.DictComp):
+            def pair(sub):
+                kt, kty = self.expr(e.key, sub)
+                vt, vty = self.expr(e.value, sub)
+                return f'({to_val(kt, kty)}, {to_val(vt, vty)})', ('tuple', (VAL, VAL))
+            t, ty = self.comprehension(None, e.generators, env, pair)
+            return f'(dict_update [] {t})', DICT
+        if isinstance(e, ast.Call):
+            return self.call(e, env)
+        raise Untranslatable(type(e).__name__)
+
+    def comprehension(self, elt, generators, env, body):
+        if len(generators) != 1:
+            raise Untranslatable('nested comprehension clauses')
+        g = generators[0]
+        if g.is_async:
+            raise Untranslatable('async comprehension')
+        it, ity = self.expr(g.iter, env)
+        if not (isinstance(ity, tuple) and ity[0] == 'list') or ity[1] == UNKNOWN:
+            raise Untranslatable(f'iteration over {ty_str(ity)}')
+        x = self.fresh('x')
+        sub, pat = self.bind_target(g.target, x, ity[1], env)
+        for cond in g.ifs:
+            c = self.truth(cond, sub)
+            it = f'(filter (fun {x} => {pat}{c}) {it})'
+        bt, bty = body(sub)
+        return f'(map (fun {x} => {pat}{bt}) {it})', ('list', bty)
+
+    def bind_target(self, target, x, ty, env):
+        """bind a for/comprehension target to the element variable x : ty -> (env, let-prefix)"""
+        if isinstance(target, ast.Name):
+            return {**env, target.id: (x, ty)}, ''
+        if isinstance(target, ast.Tuple) and isinstance(ty, tuple) and ty[0] == 'tuple' \
+                and len(target.elts) == len(ty[1]) and all(isinstance(t, ast.Name) for t in target.elts):
+            names, sub = [], dict(env)
+            for t, tty in zip(target.elts, ty[1]):
+                if t.id == '_':
+                    names.append('_')
+                else:
+                    nm = self.fresh(t.id)
+                    names.append(nm)
+                    sub[t.id] = (nm, tty)
+            return sub, f"let '({', '.join(names)}) := {x} in "
+        raise Untranslatable('loop target')
+
+    def call(self, e, env):
+        f = e.func
+        if e.keywords:
+            raise Untranslatable('keyword arguments')
+        if isinstance(f, ast.Attribute) and f.attr == 'partition' and len(e.args) == 1 \
+                and isinstance(e.args[0], ast.Constant) and isinstance(e.args[0].value, str):
+            t, ty = self.expr(f.value, env)
+            if ty != STR:
+                raise Untranslatable('partition on non-string')
+            # (before, separator found?, after): the separator component is only ever tested
+            return f'(partition_first {coq_char(e.args[0].value)} {t})', ('tuple', (STR, BOOL, STR))
+        if isinstance(f, ast.Attribute) and f.attr == 'join' and len(e.args) == 1:
+            s, sty = self.expr(f.value, env)
+            l, lty = self.expr(e.args[0], env)
+            if sty != STR or lty != LSTR:
+                raise Untranslatable('join types')
+            return f'(join {s} {l})', STR
+        if isinstance(f, ast.Name) and f.id == 'dict' and len(e.args) == 1:
+            t, ty = self.expr(e.args[0], env)
+            if not (isinstance(ty, tuple) and ty[0] == 'list' and isinstance(ty[1], tuple)
+                    and ty[1][0] == 'tuple' and len(ty[1][1]) == 2):
+                raise Untranslatable('dict() of a non-pair iterable')
+            if ty[1][1] != (VAL, VAL):
+                kt, vt = ty[1][1]
+                t = f"(map (fun p_ => let '(k_, v_) := p_ in ({to_val('k_', kt)}, {to_val('v_', vt)})) {t})"
+            return f'(dict_update [] {t})', DICT
+        if isinstance(f, ast.Name) and f.id == 'dict' and not e.args:
+            return '[]', DICT
+        if isinstance(f, ast.Name) and f.id == 'list' and len(e.args) == 1:
+            t, ty = self.expr(e.args[0], env)
+            if isinstance(ty, tuple) and ty[0] == 'list':
+                return t, ty
+        raise Untranslatable('call ' + ast.dump(f)[:60])
+
+    def truth(self, e, env):
+        if isinstance(e, ast.Call) and isinstance(e.func, ast.Name) and e.func.id == 'isinstance':
+            nm, _ = self.isinstance_mapping(e, env)
+            t, _ = env[nm]
+            return f'(match {t} with VDict _ => true | _ => false end)'
+        t, ty = self.expr(e, env)
+        if ty == BOOL:
+            return t
+        if ty == STR:
+            return f'(negb (String.eqb {t} ""))'
+        if ty == VAL:
+            return f'(py_truth {t})'
+        if ty == DICT or (isinstance(ty, tuple) and ty[0] == 'list'):
+            return f'(negb (is_nil {t}))'
+        if ty == OARGS:
+            return f'(match {t} with Some (_ :: _) => true | _ => false end)'
+        raise Untranslatable(f'truthiness of {ty_str(ty)}')
+
+    def isinstance_mapping(self, e, env):
+        if len(e.args) == 2 and isinstance(e.args[0], ast.Name) and isinstance(e.args[1], ast.Name) \
+                and e.args[1].id in ('Mapping', 'dict') and e.args[0].id in env and env[e.args[0].id][1] == VAL:
+            return e.args[0].id, True
+        raise Untranslatable('isinstance form')
+
+    # ------------------------------------------------------------ statements
+    def ret(self, term):
+        return f'(Ok {term})' if self.can_raise else term
+
+    def stmts(self, body, env, kont):
+        body = strip(body)
+        if not body:
+            return kont(env)
+        st, rest = body[0], body[1:]
+        go = lambda env2: self.stmts(rest, env2, kont)     # noqa: E731
+        if isinstance(st, ast.Return):
+            if not isinstance(kont, FunctionEnd):
+                raise Untranslatable('return inside a loop')
+            if st.value is None or (isinstance(st.value, ast.Constant) and st.value.value is None):
+                return self.ret('None')
+            t, ty = self.expr(st.value, env)
+            if ty != DICT:
+                raise Untranslatable(f'returns {ty_str(ty)}')
+            return self.ret(f'(Some {t})')
+        if isinstance(st, ast.Raise):
+            if not self.can_raise:
+                raise Untranslatable('raise in a function declared pure')
+            x = st.exc
+            if isinstance(x, ast.Call) and isinstance(x.func, ast.Name) and len(x.args) == 1 \
+                    and not x.keywords and x.func.id in ('TypeError', 'ValueError', 'KeyError', 'RuntimeError') \
+                    and isinstance(x.args[0], ast.Constant) and isinstance(x.args[0].value, str) \
+                    and st.cause is None and x.func.id != 'KeyError':
+                return f'(Err {coq_str(x.func.id)} {coq_str(x.args[0].value)})'
+            raise Untranslatable('raise form')
+        if isinstance(st, ast.AnnAssign) and st.value is not None and isinstance(st.target, ast.Name):
+            st = ast.Assign(targets=[st.target], value=st.value)
+        if isinstance(st, ast.Assign) and len(st.targets) == 1:
+            tg = st.targets[0]
+            if isinstance(tg, ast.Name):
+                v = st.value
+                if isinstance(v, ast.Call) and isinstance(v.func, ast.Attribute) and v.func.attr == 'loads' \
+                        and isinstance(v.func.value, ast.Name) and v.func.value.id == 'json' \
+                        and len(v.args) == 1 and not v.keywords:
+                    if not self.can_raise:
+                        raise Untranslatable('json.loads in a function declared pure')
+                    a, aty = self.expr(v.args[0], env)
+                    if aty != STR:
+                        raise Untranslatable('json.loads of a non-string')
+                    nm = self.fresh(tg.id)
+                    return f'(let* {nm} := prim_json_loads {a} in {go({**env, tg.id: (nm, VAL)})})'
+                t, ty = self.expr(v, env)
+                nm = self.fresh(tg.id)
+                return f'(let {nm} := {t} in {go({**env, tg.id: (nm, ty)})})'
+            if isinstance(tg, ast.Tuple):
+                t, ty = self.expr(st.value, env)
+                x = self.fresh('t')
+                sub, pat = self.bind_target(tg, x, ty, env)
+                return f'(let {x} := {t} in {pat}{go(sub)})'
+            if isinstance(tg, ast.Subscript) and isinstance(tg.value, ast.Name) and tg.value.id in env \
+                    and env[tg.value.id][1] == DICT:
+                d, _ = env[tg.value.id]
+                k, kty = self.expr(tg.slice, env)
+                v, vty = self.expr(st.value, env)
+                nm = self.fresh(tg.value.id)
+                return (f'(let {nm} := dict_set {to_val(k, kty)} {to_val(v, vty)} {d} in '
+                        f'{go({**env, tg.value.id: (nm, DICT)})})')
+            raise Untranslatable('assignment target')
+        if isinstance(st, ast.Expr) and isinstance(st.value, ast.Call) and isinstance(st.value.func, ast.Attribute) \
+                and st.value.func.attr == 'append' and isinstance(st.value.func.value, ast.Name) \
+                and len(st.value.args) == 1 and not st.value.keywords:
+            lname = st.value.func.value.id
+            if lname not in env or not (isinstance(env[lname][1], tuple) and env[lname][1][0] == 'list'):
+                raise Untranslatable('append on a non-list')
+            l, lty = env[lname]
+            x, xty = self.expr(st.value.args[0], env)
+            if lty[1] not in (UNKNOWN, xty):
+                raise Untranslatable('append element type')
+            nm = self.fresh(lname)
+            return f'(let {nm} := ({l} ++ [{x}])%list in {go({**env, lname: (nm, ("list", xty))})})'
+        if isinstance(st, ast.If):
+            return self.if_stmt(st, rest, env, kont)
+        if isinstance(st, ast.For):
+            return self.for_stmt(st, rest, env, kont)
+        if isinstance(st, ast.Pass):
+            return go(env)
+        raise Untranslatable(type(st).__name__)
+
+    def if_stmt(self, st, rest, env, kont):
+        then = lambda e2: self.stmts(list(st.body) + rest, e2, kont)       # noqa: E731
+        other = lambda e2: self.stmts(list(st.orelse) + rest, e2, kont)    # noqa: E731
+        test, neg = st.test, False
+        if isinstance(test, ast.UnaryOp) and isinstance(test.op, ast.Not):
+            test, neg = test.operand, True
+        if isinstance(test, ast.Name) and test.id in env and env[test.id][1] == OARGS:
+            t, _ = env[test.id]
+            nm = self.fresh(test.id)
+            truthy_env = {**env, test.id: (nm, LSTR)}
+            a, b = (other(truthy_env), then(env)) if neg else (then(truthy_env), other(env))
+            return f'(match {t} with Some ((_ :: _) as {nm}) => {a} | _ => {b} end)'
+        if isinstance(test, ast.Call) and isinstance(test.func, ast.Name) and test.func.id == 'isinstance':
+            name, _ = self.isinstance_mapping(test, env)
+            t, _ = env[name]
+            nm = self.fresh(name)
+            yes_env = {**env, name: (nm, DICT)}
+            a, b = (other(yes_env), then(env)) if neg else (then(yes_env), other(env))
+            return f'(match {t} with VDict {nm} => {a} | _ => {b} end)'
+        c = self.truth(st.test, env)
+        return f'(if {c} then {then(env)} else {other(env)})'
+
+    def for_stmt(self, st, rest, env, kont):
+        if st.orelse:
+            raise Untranslatable('for/else')
+        it, ity = self.expr(st.iter, env)
+        if not (isinstance(ity, tuple) and ity[0] == 'list') or ity[1] == UNKNOWN:
+            raise Untranslatable(f'iteration over {ty_str(ity)}')
+        carried = sorted(n for n in rebound_names(st.body) if n in env)
+        target_names = {n.id for n in ast.walk(st.target) if isinstance(n, ast.Name)}
+        if target_names & set(carried):
+            raise Untranslatable('loop target shadows an outer variable')
+        for _ in range(3):      # settle the element types of lists that start as []
+            x = self.fresh('x')
+            names = [self.fresh(n) for n in carried]
+            inner = {**env, **{n: (nm, env[n][1]) for n, nm in zip(carried, names)}}
+            sub, pat = self.bind_target(st.target, x, ity[1], inner)
+            end = LoopEnd(carried)
+            body = self.stmts(list(st.body), sub, end)
+            changed = False
+            for n in carried:
+                seen = {ty_str(t) for t in end.types.get(n, [])} - {ty_str(env[n][1])}
+                if seen:
+                    if len(seen) == 1 and env[n][1] == ('list', UNKNOWN):
+                        env = {**env, n: (env[n][0], end.types[n][0] if ty_str(end.types[n][0]) in seen
+                                          else [t for t in end.types[n] if ty_str(t) in seen][0])}
+                        changed = True
+                    else:
+                        raise Untranslatable(f'{n} changes type in the loop')
+            if not changed:
+                break
+        else:
+            raise Untranslatable('loop types do not settle')
+        if not carried:
+            return self.stmts(rest, env, kont)          # a loop that rebinds nothing: no effect
+        outs = [self.fresh(n) for n in carried]
+        tup = lambda ns: ns[0] if len(ns) == 1 else '(' + ', '.join(ns) + ')'      # noqa: E731
+        pre = f"let '{tup(names)} := st_ in " if len(names) > 1 else f'let {names[0]} := st_ in '
+        after = {**env, **{n: (o, env[n][1]) for n, o in zip(carried, outs)}}
+        init = tup([env[n][0] for n in carried])
+        bind = f"let '{tup(outs)}" if len(outs) > 1 else f'let {outs[0]}'
+        return (f'({bind} := fold_left (fun st_ {x} => {pre}{pat}{body}) {it} {init} in '
+                f'{self.stmts(rest, after, kont)})')
+
+
+class FunctionEnd:
+    """falling off the end of the function: return None"""
+
+    def __init__(self, tr):
+        self.tr = tr
+
+    def __call__(self, env):
+        return self.tr.ret('None')
+
+
+class LoopEnd:
+    """end of a loop body: yield the current values of the carried variables"""
+
+    def __init__(self, carried):
+        self.carried = carried
+        self.types = {}
+
+    def __call__(self, env):
+        for n in self.carried:
+            self.types.setdefault(n, []).append(env[n][1])
+        ts = [env[n][0] for n in self.carried]
+        return ts[0] if len(ts) == 1 else '(' + ', '.join(ts) + ')'
+
+
+def rebound_names(body):
+    out = set()
+    for st in body:
+        for n in ast.walk(st):
+            if isinstance(n, (ast.Assign, ast.AnnAssign)):
+                tgs = n.targets if isinstance(n, ast.Assign) else [n.target]
+                for tg in tgs:
+                    if isinstance(tg, ast.Subscript) and isinstance(tg.value, ast.Name):
+                        out.add(tg.value.id)
+                    for m in ast.walk(tg):
+                        if isinstance(m, ast.Name) and isinstance(m.ctx, ast.Store):
+                            out.add(m.id)
+            if isinstance(n, ast.AugAssign):
+                raise Untranslatable('augmented assignment')
+            if isinstance(n, ast.Call) and isinstance(n.func, ast.Attribute) and n.func.attr == 'append' \
+                    and isinstance(n.func.value, ast.Name):
+                out.add(n.func.value.id)
+    return out
+
+
+PARSERS = [
+    # module, generated name, can raise / uses json.loads
+    ('keyvaluepairs', 'gen_parse_keyvaluepairs', False),
+    ('keys', 'gen_parse_keys', False),
+    ('list', 'gen_parse_list', False),
+    ('string', 'gen_parse_string', False),
+    ('dict', 'gen_parse_dict', False),
+    ('argskwargs', 'gen_parse_argskwargs', False),
+    ('json', 'gen_parse_json', True),
+]
+
+
+def module_consts(tree):
+    out = {}
+    for st in tree.body:
+        if isinstance(st, ast.Assign) and len(st.targets) == 1 and isinstance(st.targets[0], ast.Name) \
+                and isinstance(st.value, ast.Constant) and isinstance(st.value.value, str):
+            out[st.targets[0].id] = st.value.value
+    return out
+
+
+def translate_parser(mod, can_raise):
+    tree = ast.parse((REPO / 'pypyr' / 'parser' / f'{mod}.py').read_text())
+    fn = next((n for n in tree.body if isinstance(n, ast.FunctionDef) and n.name == 'get_parsed_context'), None)
+    if fn is None:
+        raise Untranslatable('get_parsed_context not found')
+    a = fn.args
+    if len(a.args) != 1 or a.vararg or a.kwarg or a.kwonlyargs or a.posonlyargs or a.defaults or fn.decorator_list:
+        raise Untranslatable('signature')
+    p = a.args[0].arg
+    check_aliasing(fn, [p])
+    tr = FnTr(module_consts(tree), can_raise)
+    body = tr.stmts(list(fn.body), {p: (p, OARGS)}, FunctionEnd(tr))
+    rty = 'res (option dict)' if can_raise else 'option dict'
+    return f'({p} : option (list string)) : {rty} :=\n  {body}'
+
+
+# ---------------------------------------------------------------- cli.main
+
+CLASSES = ('BaseException', 'Exception', 'KeyboardInterrupt', 'SystemExit', 'GeneratorExit')
+INT_CONSTS = {('signal', 'SIGINT'): 2}
+
+# argparse dest (read through parsed_args.<dest>) -> term of the model's cli_args record [a]
+DEST = {
+    'pipeline_name': 'a_name a',
+    'context_args': 'Some (a_ctx a)',
+    'groups': 'a_groups a',
+    'success_group': 'a_success a',
+    'failure_group': 'a_failure a',
+    'py_dir': '(match a_dir a with Some d => d | None => cwd end)',     # default=config.cwd
+}
+# parameters of pypyr.pipelinerunner.run in the order of the model's run_call record
+RUN_FIELDS = ['pipeline_name', 'args_in', 'parse_args', 'dict_in', 'groups', 'success_group',
+              'failure_group', 'loader', 'py_dir']
+
+
+def int_expr(e):
+    if isinstance(e, ast.Constant) and isinstance(e.value, int) and not isinstance(e.value, bool):
+        return f'{e.value}' if e.value >= 0 else f'({e.value})'
+    if isinstance(e, ast.Attribute) and isinstance(e.value, ast.Name) and (e.value.id, e.attr) in INT_CONSTS:
+        return str(INT_CONSTS[(e.value.id, e.attr)])
+    if isinstance(e, ast.BinOp) and isinstance(e.op, (ast.Add, ast.Sub, ast.Mult)):
+        op = {ast.Add: '+', ast.Sub: '-', ast.Mult: '*'}[type(e.op)]
+        return f'({int_expr(e.left)} {op} {int_expr(e.right)})'
+    raise Untranslatable('exit code expression')
+
+
+def attr_chain(e):
+    parts = []
+    while isinstance(e, ast.Attribute):
+        parts.append(e.attr)
+        e = e.value
+    if isinstance(e, ast.Name):
+        parts.append(e.id)
+        return '.'.join(reversed(parts))
+    return None
+
+
+def is_printing(st):
+    """what main prints is out of scope: these statements are dropped"""
+    if isinstance(st, ast.Expr) and isinstance(st.value, ast.Call):
+        return attr_chain(st.value.func) in ('sys.stdout.write', 'sys.stderr.write', 'traceback.print_exc',
+                                             'sys.stdout.flush', 'sys.stderr.flush', 'print')
+    if isinstance(st, ast.If):
+        return all(is_printing(s) for s in st.body) and all(is_printing(s) for s in st.orelse)
+    return False
+
+
+def after_handler(stmts, fallthrough):
+    """body of a handler / statements after the try -> term of type (option Z + exn)"""
+    stmts = [s for s in strip(stmts) if not is_printing(s)]
+    if not stmts:
+        return fallthrough
+    if len(stmts) == 1 and isinstance(stmts[0], ast.Return):
+        v = stmts[0].value
+        if v is None or (isinstance(v, ast.Constant) and v.value is None):
+            return '(inl None)'
+        return f'(inl (Some {int_expr(v)}%Z))'
+    if len(stmts) == 1 and isinstance(stmts[0], ast.Raise) and stmts[0].exc is None:
+        return '(inr e)'
+    raise Untranslatable('handler body')
+
+
+def find_main():
+    tree = ast.parse((REPO / 'pypyr' / 'cli.py').read_text())
+    fn = next((n for n in tree.body if isinstance(n, ast.FunctionDef) and n.name == 'main'), None)
+    if fn is None:
+        raise Untranslatable('main not found')
+    body = strip(fn.body)
+    tries = [i for i, s in enumerate(body) if isinstance(s, ast.Try)]
+    if len(tries) != 1:
+        raise Untranslatable('expected exactly one try statement')
+    i = tries[0]
+    for s in body[:i]:
+        ok = isinstance(s, ast.Assign) or (isinstance(s, ast.If) and not s.orelse
+                                           and all(isinstance(x, ast.Assign) for x in s.body))
+        if not ok:
+            raise Untranslatable('statement before the try')
+    return tree, body[i], body[i + 1:]
+
+
+def translate_ladder():
+    _, tr, tail = find_main()
+    if tr.finalbody:
+        raise Untranslatable('finally')
+    for s in ast.walk(ast.Module(body=tr.body, type_ignores=[])):
+        if isinstance(s, (ast.Return, ast.Raise, ast.Try)):
+            raise Untranslatable('return/raise/try inside the try body')
+    end = after_handler(tail, '(inl None)')
+    no_exc = after_handler(list(tr.orelse) + tail, '(inl None)') if tr.orelse else end
+    ladder = '(inr e)'
+    for h in reversed(tr.handlers):
+        if h.type is None:
+            cond = 'true'
+        else:
+            ts = h.type.elts if isinstance(h.type, ast.Tuple) else [h.type]
+            names = []
+            for t in ts:
+                if not (isinstance(t, ast.Name) and t.id in CLASSES):
+                    raise Untranslatable('handler class')
+                names.append(f'isinst e {coq_str(t.id)}')
+            cond = names[0] if len(names) == 1 else '(' + ' || '.join(names) + ')'
+        ladder = f'(if {cond} then {after_handler(h.body, end)} else {ladder})'
+    return (f'(body : option exn) : (option Z + exn) :=\n'
+            f'    match body with\n    | None => {no_exc}\n    | Some e => {ladder}\n    end')
+
+
+def translate_call():
+    tree, tr, _ = find_main()
+    calls = [n for s in tr.body for n in ast.walk(s)
+             if isinstance(n, ast.Call) and attr_chain(n.func) == 'pypyr.pipelinerunner.run']
+    if len(calls) != 1:
+        raise Untranslatable('expected exactly one call of pypyr.pipelinerunner.run in the try body')
+    c = calls[0]
+    given = {}
+    for i, a in enumerate(c.args):
+        if isinstance(a, ast.Starred) or i >= len(RUN_FIELDS):
+            raise Untranslatable('positional arguments')
+        given[RUN_FIELDS[i]] = a
+    for k in c.keywords:
+        if k.arg is None or k.arg not in RUN_FIELDS or k.arg in given:
+            raise Untranslatable(f'keyword {k.arg}')
+        given[k.arg] = k.value
+    # defaults of run() itself: every parameter but the first must default to None
+    rtree = ast.parse((REPO / 'pypyr' / 'pipelinerunner.py').read_text())
+    run = next((n for n in rtree.body if isinstance(n, ast.FunctionDef) and n.name == 'run'), None)
+    if run is None or [a.arg for a in run.args.args] != RUN_FIELDS or run.args.vararg or run.args.kwarg \
+            or run.args.kwonlyargs or len(run.args.defaults) != len(RUN_FIELDS) - 1 \
+            or not all(isinstance(d, ast.Constant) and d.value is None for d in run.args.defaults):
+        raise Untranslatable('signature of pypyr.pipelinerunner.run')
+    terms = []
+    for f in RUN_FIELDS:
+        if f not in given:
+            if f == 'pipeline_name':
+                raise Untranslatable('pipeline_name not passed')
+            terms.append('None')
+            continue
+        v = given[f]
+        if isinstance(v, ast.Constant) and v.value is None:
+            terms.append('None')
+        elif isinstance(v, ast.Constant) and isinstance(v.value, bool):
+            terms.append(f'(Some {"true" if v.value else "false"})')
+        elif isinstance(v, ast.Attribute) and isinstance(v.value, ast.Name) and v.value.id == 'parsed_args' \
+                and v.attr in DEST:
+            terms.append('(' + DEST[v.attr] + ')')
+        else:
+            raise Untranslatable(f'value of {f}')
+    return '(cwd : string) (a : cli_args) : run_call :=\n    mk_run_call ' + ' '.join(terms)
+
+
+# ---------------------------------------------------------------- output
+
+def emit(lines, header, name, fn, indent=''):
+    try:
+        body = fn()
+        lines.append(f'{indent}(* {header} *)')
+        lines.append(f'{indent}Definition {name} {body}.')
+        return 'ok'
+    except (Untranslatable, OSError, SyntaxError, KeyError, AttributeError, IndexError, TypeError) as ex:
+        msg = str(ex).replace('*)', '* )').replace('(*', '( *').replace('"', "'")
+        lines.append(f'{indent}(* {header} could not be translated: {msg} *)')
+        lines.append(f'{indent}Definition {name}_UNTRANSLATED : unit := tt.')
+        return f'untranslated: {ex}'
+
+
+def translate_all():
+    lines = ['(** Gen/GenC18.v — GENERATED by tools/py2coq_c18.py from the current source under the',
+             '    repository; do not edit.  A function that could not be translated gets the suffix',
+             '    _UNTRANSLATED, which breaks every lemma that mentions the expected name. *)',
+             'From PV Require Import PyVal Cli.', 'Open Scope string_scope.', '']
+    status = {}
+    for mod, cname, can_raise in PARSERS:
+        if can_raise:
+            continue
+        status[cname] = emit(lines, f'pypyr/parser/{mod}.py: get_parsed_context', cname,
+                             lambda m=mod: translate_parser(m, False))
+        lines.append('')
+    lines += ['Section Json.', '  (* json.loads: standard library, left abstract *)',
+              '  Variable prim_json_loads : string -> res val.', '']
+    for mod, cname, can_raise in PARSERS:
+        if can_raise:
+            status[cname] = emit(lines, f'pypyr/parser/{mod}.py: get_parsed_context', cname,
+                                 lambda m=mod: translate_parser(m, True), '  ')
+    lines += ['End Json.', '', 'Section MainLadder.',
+              '  (* the exceptions the try body of main can raise, and Python isinstance against the',
+              '     class named by a string: left abstract *)',
+              '  Variable exn : Type.', '  Variable isinst : exn -> string -> bool.', '']
+    status['gen_main_ladder'] = emit(
+        lines, 'pypyr/cli.py: main — try/except ladder; inl code = main returns code, inr e = e escapes',
+        'gen_main_ladder', translate_ladder, '  ')
+    lines += ['End MainLadder.', '']
+    status['gen_call_of'] = emit(lines, 'pypyr/cli.py: main — arguments of pypyr.pipelinerunner.run(...)',
+                                 'gen_call_of', translate_call)
+    lines.append('')
+    text = '\n'.join(lines)
+    OUT.parent.mkdir(exist_ok=True)
+    if not OUT.exists() or OUT.read_text() != text:
+        OUT.write_text(text)
+    return status
+
+
+if __name__ == '__main__':
+    for k, v in translate_all().items():
+        print(k, v)
+    sys.exit(0)
